@@ -44,6 +44,8 @@ def main(tier, replay_payload=None):
     run.replayer = lambda p: fault.replay_fault(w_args, menu_fn, p["vals"], p["clauses"])
     nerr = 3 if tier == "thorough" else 1
     res = fault.explore_faults(w_args, menu_fn, nerr)
+    from engine import battery
+    battery.validate(run)
     fold(run, res, "C13:")
     run.functions = loader.function_lines(loader.load(), API_FUNCS)
     run.bounds = dict(pids=w_args["pids"], contents=[len(c) for c in w_args["contents"]], formats=w_args["formats"],
